@@ -15,11 +15,9 @@ from protolib import *
 
 KEY_BUS = "bus-nonblock-send-eagain"
 KEY_RESP = "respondent-nb-send-eagain"
-KEY_REP = "rep-writable-while-busy"
-KEY_MSGQ = "msgq-get-leaves-writers-blocked"
+KEY_PLB = "pollable-getfd-clear-race"
 KNOWN_TEXT = {
-    KEY_REP: "rep.c: the send descriptor stays raised while the pipe the socket would reply on is busy (made busy by another context, or a request of a busy pipe taken while the descriptor was still raised for an earlier one): NONBLOCK send returns NNG_EAGAIN / a blocking send waits",
-    KEY_MSGQ: "msgqueue.c nni_msgq_aio_get runs only the reader queue: after a reader took a buffered message blocked writers stay blocked although there is room, the send descriptor is raised (len < cap) and a NONBLOCK send is refused because a writer is ahead (raw REQ with a send buffer)",
+    KEY_PLB: "pollable.c nni_pollable_getfd loads p_raised once after publishing the new descriptor: a complete nni_pollable_clear of another thread between that load and the write leaves the descriptor readable with the flag down, and the next clear does not drain it (wb_c15 `window clear` => fd=1 flag=0)",
     KEY_BUS: "bus.c bus0_sock_send: NONBLOCK send returns NNG_EAGAIN although the send descriptor is raised and a blocking send succeeds at once",
     KEY_RESP: "respond.c resp0_ctx_send calls nni_aio_start first: NONBLOCK send returns NNG_EAGAIN with the pipe idle (descriptor raised), and the descriptor it cleared stays down although a blocking send succeeds at once",
 }
@@ -379,10 +377,6 @@ def oracle(case, obs, raw, stats=None):
                     key = KEY_BUS
                 if proto == "respondent0" and op == "sendnb":
                     key = KEY_RESP
-                if proto == "rep0" and op == "sendnb":
-                    key = KEY_REP
-                if proto == "req0_raw" and op == "sendnb":
-                    key = KEY_MSGQ
                 return (k, "%s descriptor polls readable but the NONBLOCK %s returned NNG_EAGAIN (busy loop)" % (dirn, dirn), key)
             elif fd == "0" and rv == 0:
                 return (k, "NONBLOCK %s succeeded although the %s descriptor did not poll readable (missed wake-up)" % (dirn, dirn))
@@ -394,13 +388,15 @@ def oracle(case, obs, raw, stats=None):
                     return (k, "a NONBLOCK %s that returned NNG_EAGAIN changed the descriptors from %s to %s" % (dirn, "".join(fds), "".join(o["poll"][0])), key)
         if op in ("sendnb", "recvnb") and o["rv"] == -1:
             return (k, "a NONBLOCK operation did not complete at once")
+        if op in ("sendnb", "recvnb") and o["rv"] == 5:
+            return (k, "a NONBLOCK operation returned NNG_ETIMEDOUT (a refused NONBLOCK operation must report NNG_EAGAIN)")
         if op in ("send", "recv") and t[1] == "s0" and o["rv"] == 0 and fds is not None:
             a = int(t[2][1:])
             fd = fds[0] if op == "recv" else fds[1]
             done = [x for x in o["done"] if x[0] == a]
             dirn = "receive" if op == "recv" else "send"
             if fd == "1" and not done:
-                key = KEY_REP if (proto == "rep0" and op == "send") else KEY_MSGQ if (proto == "req0_raw" and op == "send") else None
+                key = None
                 return (k, "%s descriptor polls readable but a %s had to wait (the NONBLOCK form would return NNG_EAGAIN)" % (dirn, dirn), key)
             if fd == "0" and done and done[0][1] == 0:
                 key = KEY_RESP if (proto == "respondent0" and op == "send") else None
@@ -414,8 +410,9 @@ def oracle(case, obs, raw, stats=None):
 
 # ---------------------------------------------------------------- running
 def run_batch(impl, model, batch):
-    iout, crash = run_cases(impl, batch, timeout=900)
-    mout, mcrash = run_cases(model, batch, timeout=900)
+    # a NONBLOCK call that blocks for good stops the driver: the batch times out and is reported as a hang
+    iout, crash = run_cases(impl, batch, timeout=20 + 4 * len(batch))
+    mout, mcrash = run_cases(model, batch, timeout=20 + 4 * len(batch))
     return iout, crash, mout, mcrash
 
 
@@ -645,6 +642,23 @@ def run(tier, seed, replay=None):
                 pbad += 1
                 p = rep.replay_file("pollable_diverge_%d.case" % ci, "# impl %s\n# model %s\n" % (iout[ci], mout[ci]) + "\n".join(c) + "\n")
                 rep.violation(p, "pollable.c and its model differ on %s" % " ".join(c), nofail=True)
+        # the first-getfd / clear window, forced (the interleaving of plb_concurrent_clear_refuted)
+        rc, wout, werr = run_prog(pimpl, "window clear\nwindow raise\n", timeout=60)
+        rc2, wmod, _ = run_prog(model, "window clear\nwindow raise\n", timeout=60, args=["--pollable"])
+        rep.cov["pollable_window"] = {"impl": wout, "model": wmod}
+        if len(wout) != 2 or rc != 0:
+            p = rep.replay_file("pollable_window.txt", "\n".join(wout) + "\n" + (werr or ""))
+            rep.violation(p, "pollable driver failed on the window commands (rc=%s)" % rc, nofail=True)
+        else:
+            for l in wout:
+                m = re.match(r"window fd=(\d) flag=(\d)(?: after-clear fd=(\d))?$", l)
+                if not m or m.group(1) != m.group(2) or (m.group(3) is not None and m.group(3) != "0"):
+                    p = rep.replay_file("pollable_window.case", "# %s\n# harness/wb_c15.c: a complete nni_pollable_clear between getfd's load of p_raised and its write\nwindow clear\n" % l)
+                    rep.violation(p, KNOWN_TEXT[KEY_PLB] + " -- observed: " + l, key=KEY_PLB)
+                    break
+            if wout != wmod and not rep.violations:
+                p = rep.replay_file("pollable_window_diverge.txt", "impl  %s\nmodel %s\n" % (wout, wmod))
+                rep.violation(p, "pollable.c and its interleaving model differ on the forced window: impl %s model %s" % (wout, wmod), nofail=True)
         rounds = 2000 if tier == "quick" else 200000
         rc, out, errt = run_prog(pimpl, "race %d %d\n" % (rounds, seed), timeout=600)
         m = re.match(r"race rounds=(\d+) bad=(\d+) raised_final=(\d+) created_during=(\d+)", out[0]) if out else None
